@@ -1,173 +1,11 @@
 package internal
 
-// Replay harness injected with `go test -overlay` (never written into /repo).
-// Reads candidate inputs (JSON, from the solver's counterexample) and a boundary corpus,
-// runs the real Compare and checks it against a reference implementation of the
-// specification order of C10 (math/big based, no machine arithmetic).
-
 import (
 	"encoding/json"
 	"fmt"
-	"math"
-	"math/big"
 	"os"
-	"strconv"
 	"testing"
-	"time"
 )
-
-type rvVal struct {
-	T    string `json:"t"`
-	V    string `json:"v"`
-	Bits string `json:"bits"`
-}
-
-func (r rvVal) value() interface{} {
-	switch r.T {
-	case "nil":
-		return nil
-	case "int64":
-		n, _ := strconv.ParseInt(r.V, 10, 64)
-		return n
-	case "uint64":
-		n, _ := strconv.ParseUint(r.V, 10, 64)
-		return n
-	case "float64":
-		b, _ := strconv.ParseUint(r.Bits, 0, 64)
-		return math.Float64frombits(b)
-	case "string":
-		return r.V
-	case "bool":
-		return r.V == "true"
-	case "time":
-		n, _ := strconv.ParseInt(r.V, 10, 64)
-		return time.Unix(0, n)
-	}
-	return nil
-}
-
-func refRank(v interface{}) int {
-	switch v.(type) {
-	case nil:
-		return 0
-	case int64, uint64, float64:
-		return 1
-	case string:
-		return 2
-	case map[string]interface{}:
-		return 3
-	case []interface{}:
-		return 4
-	case bool:
-		return 5
-	case time.Time:
-		return 6
-	}
-	return -1
-}
-
-func refRat(v interface{}) *big.Rat {
-	switch x := v.(type) {
-	case int64:
-		return new(big.Rat).SetInt64(x)
-	case uint64:
-		return new(big.Rat).SetInt(new(big.Int).SetUint64(x))
-	case float64:
-		r := new(big.Rat)
-		if r.SetFloat64(x) == nil {
-			return nil
-		}
-		return r
-	}
-	return nil
-}
-
-// refCmp: the specification order on scalars; ok=false when outside the replayable domain.
-func refCmp(a, b interface{}) (int, bool) {
-	ra, rb := refRank(a), refRank(b)
-	if ra < 0 || rb < 0 {
-		return 0, false
-	}
-	if ra != rb {
-		if ra < rb {
-			return -1, true
-		}
-		return 1, true
-	}
-	switch ra {
-	case 0:
-		return 0, true
-	case 1:
-		fa, aIsF := a.(float64)
-		fb, bIsF := b.(float64)
-		if aIsF && bIsF {
-			switch {
-			case fa < fb:
-				return -1, true
-			case fa > fb:
-				return 1, true
-			case fa == fb:
-				return 0, true
-			}
-			return 0, false
-		}
-		x, y := refRat(a), refRat(b)
-		if x == nil || y == nil { // infinities against integers
-			f := fa
-			sign := 1
-			if bIsF {
-				f = fb
-				sign = -1
-			}
-			if math.IsInf(f, 1) {
-				return sign, true
-			}
-			if math.IsInf(f, -1) {
-				return -sign, true
-			}
-			return 0, false
-		}
-		return x.Cmp(y), true
-	case 2:
-		sa, sb := a.(string), b.(string)
-		switch {
-		case sa < sb:
-			return -1, true
-		case sa > sb:
-			return 1, true
-		}
-		return 0, true
-	case 5:
-		ba, bb := a.(bool), b.(bool)
-		switch {
-		case !ba && bb:
-			return -1, true
-		case ba && !bb:
-			return 1, true
-		}
-		return 0, true
-	case 6:
-		ta, tb := a.(time.Time), b.(time.Time)
-		switch {
-		case ta.Before(tb):
-			return -1, true
-		case ta.After(tb):
-			return 1, true
-		}
-		return 0, true
-	}
-	return 0, false
-}
-
-func sgn(x int) int {
-	switch {
-	case x < 0:
-		return -1
-	case x > 0:
-		return 1
-	}
-	return 0
-}
 
 func TestVerifReplayCompare(t *testing.T) {
 	var pairs [][2]rvVal
